@@ -27,6 +27,8 @@ use vpcore::{Ctx, Histo, Report, finish};
 use vpe3::catalogue::{QUICK, Spec, catalogue};
 use vpe3::{Case, Fault, Outcome};
 
+mod programs;
+
 fn describe_outcome(o: &Outcome) -> Value {
     json!({
         "key": o.key(),
@@ -60,18 +62,28 @@ fn main() {
         let name = r["circuit"].as_str().unwrap_or("").to_string();
         let fault = Fault::from_json(&r["fault"])
             .unwrap_or_else(|| vpcore::machinery_error("replay: unreadable fault"));
-        let spec = specs
-            .iter()
-            .find(|s| s.name == name)
-            .unwrap_or_else(|| vpcore::machinery_error(&format!("replay: unknown circuit {name}")));
-        let case = (spec.build)().unwrap_or_else(|e| vpcore::machinery_error(&e));
+        let case: Box<dyn Case> = if r.get("program").is_some() {
+            programs::rebuild(&r).unwrap_or_else(|e| vpcore::machinery_error(&e))
+        } else {
+            let spec = specs.iter().find(|s| s.name == name).unwrap_or_else(|| {
+                vpcore::machinery_error(&format!("replay: unknown circuit {name}"))
+            });
+            (spec.build)().unwrap_or_else(|e| vpcore::machinery_error(&e))
+        };
         let o = case.evaluate(&fault);
         println!("replay {name} {}: {}", fault.to_json(), describe_outcome(&o));
         if o.violation() {
             report.violation(
                 o.key(),
                 what(&name, &fault, &o),
-                json!({"circuit": name, "fault": fault.to_json()}),
+                {
+                    let mut j = json!({"circuit": name, "fault": fault.to_json()});
+                    if let Some(p) = r.get("program") {
+                        j["program"] = p.clone();
+                        j["inputs"] = r["inputs"].clone();
+                    }
+                    j
+                },
             );
         }
         let cov = json!({"evaluations": 1, "distinct_nontrivial": o.pred.fails() as u64,
@@ -199,6 +211,25 @@ fn main() {
         circuits_json.push(d);
     }
 
+    // ------------------------------------------------------------ stage 2: E1 programs
+    // thorough only: every canonical builder program of the small E1 families (k <= 2 value
+    // calls; aliasing through shared operands and connects), D = 1, first satisfying input
+    // vector, every single fault.
+    let mut programs_json = json!(null);
+    if !ctx.quick() && only.is_none() || ctx.opt("programs").is_some() {
+        let st = programs::run(&ctx, &report, &histo, &per_class, &samples);
+        evaluations += st.evaluations;
+        nontrivial += st.nontrivial;
+        accepted_false += st.accepted_false;
+        accepted_valid += st.accepted_valid;
+        inapplicable += st.inapplicable;
+        noops += st.noops;
+        if st.timed_out {
+            timed_out.store(true, Ordering::Relaxed);
+        }
+        programs_json = st.json;
+    }
+
     let exhaustive = !timed_out.load(Ordering::Relaxed);
     let cov = json!({
         "evaluations": evaluations,
@@ -207,6 +238,7 @@ fn main() {
         "samples": *samples.lock().unwrap(),
         "exhaustive": exhaustive,
         "circuits": circuits_json,
+        "e1_programs": programs_json,
         "accepted_and_predicate_false": accepted_false,
         "accepted_and_predicate_true_or_unknown": accepted_valid,
         "inapplicable_faults": inapplicable,
